@@ -2,8 +2,8 @@
 Core B: histories, retained part.  The retained trie reached by any list of
 operations holds, up to permutation, the abstract store's retained messages
 (last non-empty message per topic), and `Retained` answers as section 4.7
-prescribes - for good operations (no empty level, no '$'-led level, retained
-topics are valid names).  Helper lemmas only.
+prescribes - for good operations (no empty level, not beginning with '$',
+retained topics are valid names).  Helper lemmas only.
 -/
 import Mqtt.Proofs.TopicsHistory
 import Mqtt.Proofs.TopicsRetained
@@ -29,7 +29,7 @@ structure RInv (root : RNode) (rets : List Ret) : Prop where
   wf : RWF root
   perm : (absR root).Perm (absRets rets)
 
-/-- a good operation: no empty level, no '$'-led level; a retained topic is a valid name -/
+/-- a good operation: no empty level, not beginning with '$'; a retained topic is a valid name -/
 def goodOp (op : Op) : Bool :=
   good (opTopic op) && (match op with | .retain t _ _ => validName t | _ => true)
 
@@ -37,27 +37,34 @@ def goodOp (op : Op) : Bool :=
 
 theorem modelStep_sub_rroot (mt : MemTopics) (f : List UInt8) (q s : Nat) :
     (modelStep mt (.sub f q s)).1.rroot = mt.rroot := by
-  unfold modelStep
-  simp only [MemTopics.subscribe, SNode.sinsert]
-  cases validQos q
-  · rfl
-  · simp only [Bool.not_true, Bool.false_eq_true, ↓reduceIte]
-    by_cases hx : (levels f).2 = true <;> simp [hx]
+  cases hd : checkSys f with
+  | true => rw [modelStep_sub_sys _ _ _ _ hd]
+  | false =>
+    simp only [modelStep, subscribe_of_not_sys _ _ _ _ _ hd, SNode.sinsert]
+    cases validQos q
+    · rfl
+    · simp only [Bool.not_true, Bool.false_eq_true, ↓reduceIte]
+      by_cases hx : (levels f).2 = true <;> simp [hx]
 
 theorem modelStep_unsub_rroot (mt : MemTopics) (f : List UInt8) (s : Nat) :
     (modelStep mt (.unsub f s)).1.rroot = mt.rroot := by
-  simp [modelStep, MemTopics.unsubscribe, SNode.sremove]
+  cases hd : checkSys f with
+  | true => rw [modelStep_unsub_sys _ _ _ hd]
+  | false => simp [modelStep, unsubscribe_of_not_sys _ _ _ hd, SNode.sremove]
 
 theorem modelStep_unsubAll_rroot (mt : MemTopics) (f : List UInt8) :
     (modelStep mt (.unsubAll f)).1.rroot = mt.rroot := by
-  simp [modelStep, MemTopics.unsubscribe, SNode.sremove]
+  cases hd : checkSys f with
+  | true => rw [modelStep_unsubAll_sys _ _ hd]
+  | false => simp [modelStep, unsubscribe_of_not_sys _ _ _ hd, SNode.sremove]
 
-theorem modelStep_retain_rroot (mt : MemTopics) (t : List UInt8) (q : Nat) (p : List UInt8) :
+theorem modelStep_retain_rroot (mt : MemTopics) (t : List UInt8) (q : Nat) (p : List UInt8)
+    (hd : checkSys t = false) :
     (modelStep mt (.retain t q p)).1.rroot =
       if p.isEmpty then (mt.rroot.rremoveL (levels t).1 (levels t).2).1
       else mt.rroot.rinsertL (levels t).1 (levels t).2 { topic := t, qos := q, payload := p } := by
-  unfold modelStep
-  simp only [MemTopics.retain, RNode.rremove, RNode.rinsert]
+  have hd' : checkSys ({ topic := t, qos := q, payload := p } : RMsg).topic = false := hd
+  simp only [modelStep, retain_of_not_sys _ _ hd', RNode.rremove, RNode.rinsert]
   cases p.isEmpty <;> rfl
 
 def specRets (rets : List Ret) : Op → List Ret
@@ -126,7 +133,7 @@ theorem step_rinv (mt : MemTopics) (rets : List Ret) (op : Op) (hg : goodOp op =
     obtain ⟨hgt, hn⟩ := hg
     have hd : dollar t = false := good_not_dollar t hgt
     obtain ⟨e1, e2⟩ := levels_valid t hgt (validName_validFilter t hn)
-    rw [modelStep_retain_rroot, e1, e2]
+    rw [modelStep_retain_rroot _ _ _ _ (good_checkSys t hgt), e1, e2]
     simp only [specRets, hd, hn, Bool.not_true, Bool.or_self, Bool.false_eq_true, ↓reduceIte]
     cases hp : p.isEmpty with
     | true =>
@@ -184,7 +191,8 @@ theorem retained_refines (mt : MemTopics) (rets : List Ret) (f : List UInt8)
   have hvl : validFilterLevels (split f) = true := by
     simp only [validFilter, Bool.and_eq_true] at hv; exact hv.2
   refine ⟨r, ?_, ?_⟩
-  · simp only [MemTopics.retained, RNode.rmatch]
+  · rw [retained_of_not_sys _ _ (good_checkSys f hg)]
+    simp only [RNode.rmatch]
     rw [← e1, ← e2] at hr
     exact hr
   · have h1 := (hp.trans (h.perm.filterMap _)).map toRet
